@@ -73,6 +73,11 @@ def _generic(acc: Acc, name, lang, layout, files, vs, case):
         text = src[line - 1]
         if not (0 <= col <= len(text)):
             acc.fail({**sig, "mode": "column-out-of-range", "rule": rid}, case, f"0..{len(text)}", col, msg[:120])
+        if rid.startswith(("unwrap-abuse", "clone-abuse", "blocking-async")) and ": " in msg:
+            # these messages end with the source text of the call: it is taken from the source
+            quoted = msg.split(": ", 1)[1].strip()
+            if quoted and quoted in files[f] and quoted not in text:
+                acc.fail({**sig, "mode": "quoted-source-not-on-line", "rule": rid}, {**case, "line": line}, f"{quoted[:60]!r} on line {line}", text[:160], msg[:160])
         m = QUOTE.search(msg)
         if m and re.fullmatch(r"[\w.$]+", m.group(1)) and not name.startswith(("dry", "stringly", "file-placement", "file-header", "lazy")):
             tok = m.group(1)
@@ -247,9 +252,13 @@ def run_item(item) -> Acc:
         block = ["    alpha = fetch_alpha(source)", "    beta = alpha.transform(stage_one)", "    gamma = combine(alpha, beta)", "    delta.append(gamma)"]
         for lang, ext, opener, closer in (("python", ".py", "def {n}(source, delta):", []), ("ts", ".ts", "function {n}(source, delta) {{", ["}"])):
             blk = block if lang == "python" else ["  const alpha = fetchAlpha(source);", "  const beta = alpha.transform(stageOne);", "  const gamma = combine(alpha, beta);", "  delta.push(gamma);"]
-            for above in (0, 2, "doc"):
+            for above in (0, 2, "doc", "formfeed"):
                 for gap in (0, 1):
-                    if above == "doc":
+                    if above == "formfeed":
+                        if lang != "python":
+                            continue
+                        doc, above_n = ["\x0c", "# second page"], 2
+                    elif above == "doc":
                         doc = ['"""Module text."""', ""] if lang == "python" else ["/**", " * Describes the handler.", " * @param source input", " */"]
                         above_n = len(doc)
                     else:
